@@ -30,6 +30,7 @@ Definition render_attrs (t : token) : list chunk :=
 
 Definition s_inline : str := [105; 110; 108; 105; 110; 101].
 Definition s_text : str := [116; 101; 120; 116].
+Definition s_tspecial : str := [116; 101; 120; 116; 95; 115; 112; 101; 99; 105; 97; 108].   (* text_special *)
 Definition s_image : str := [105; 109; 97; 103; 101].
 Definition s_softbreak : str := [115; 111; 102; 116; 98; 114; 101; 97; 107].
 Definition s_hardbreak : str := [104; 97; 114; 100; 98; 114; 101; 97; 107].
@@ -147,6 +148,7 @@ Definition render_one (o : ropts) (prev : option token) (t : token) (next : opti
   else if str_eqb ty s_hardbreak then Ok ([CLit (br o)], t)
   else if str_eqb ty s_softbreak then Ok ([CLit (if o_breaks o then br o else [LF])], t)
   else if str_eqb ty s_text then Ok ([CEsc (tcontent t)], t)
+  else if str_eqb ty s_tspecial then Ok ([CEsc (tcontent t)], t)
   else if str_eqb ty s_html_block then Ok ([CRaw (tcontent t)], t)
   else if str_eqb ty s_html_inline then Ok ([CRaw (tcontent t)], t)
   else if str_eqb ty s_definition then Ok ([], t)
